@@ -886,12 +886,50 @@ fn check_tree_on_disk(sb: &Sandbox, tree: &Tree, st: &mut Stats, only: Option<&s
     (out, w.materialisations)
 }
 
+// ---------------------------------------------------------------------------------------------
+// assert_vfs_read_all! over multi-line contents: the explored states hold one-line contents only, and
+// a comparison that walks lines (or stops at the shorter side) only shows on contents where one is a
+// line-wise prefix of the other, differs by a final newline, or differs in a later line.
+// ---------------------------------------------------------------------------------------------
+fn read_all_matrix<V: VirtualFileSystem>(backend: &str, vfs: &V, dir: &str) -> Vec<(String, String)> {
+    let texts = ["", "x", "l1", "l1\n", "l1\nl2", "l1\nl2\n", "l1\nl2\nl3", "l1\nXX\nl3", "\n", "\n\n", "l1\r\nl2"];
+    let mut out = vec![];
+    let p = format!("{}/ra-matrix", dir);
+    for content in texts {
+        if let Err(e) = vfs.write_all(&p, content.as_bytes()) {
+            out.push((format!("{} read_all matrix · setup failed", backend), e.to_string()));
+            return out;
+        }
+        for expected in texts {
+            let r = catch_unwind(AssertUnwindSafe(|| {
+                assert_vfs_read_all!(vfs, &p, expected);
+            }));
+            let panicked = r.is_err();
+            let want_panic = content != expected;
+            if panicked != want_panic {
+                out.push((
+                    format!("assert_vfs_read_all! · {} (multi-line contents)", if want_panic { "passes although its predicate is false" } else { "panics although its predicate is true" }),
+                    format!("{}: file content {:?}, expected {:?}: the macro {}", backend, content, expected, if panicked { "panicked" } else { "returned without panic" }),
+                ));
+            }
+        }
+    }
+    let _ = vfs.remove(&p);
+    out
+}
+
 pub fn worker(w: &mut WorkerCtx) {
     unsafe {
         libc::umask(0o022);
     }
     let max_entries: usize = w.arg(0).parse().unwrap_or(2);
     let sb = Sandbox::new("c20");
+    if w.shard == 0 {
+        for (sig, detail) in read_all_matrix("Vfs::Stdfs", &Vfs::Stdfs(Stdfs::new()), &sb.root) {
+            w.vio(&sig, || detail, || J::obj([("world", J::s("Vfs::Stdfs")), ("part", J::s("read-all-matrix"))]));
+        }
+        sb.reset();
+    }
     let mut trees = enum_trees(&tree_space(max_entries));
     let resolving = trees.len();
     // second family: states with links that do not resolve to a non-link (dangling /zz, chains, cycles)
@@ -1091,6 +1129,11 @@ pub fn run(ctx: &Ctx) -> i32 {
     }
     // capture_panic first, while the process is still single-threaded (it swaps the global hook)
     let (cp_closures, cp_calls) = capture_panic_test();
+    for (name, found) in [("Memfs", read_all_matrix("Memfs", &Memfs::new(), "/")), ("Vfs::Memfs", read_all_matrix("Vfs::Memfs", &Vfs::memfs(), "/"))] {
+        for (sig, detail) in found {
+            vio(&sig, || detail, || J::obj([("world", J::s(name)), ("part", J::s("read-all-matrix"))]));
+        }
+    }
 
     let obs = C20Obs { stats: Mutex::new(Stats::default()), samples: Mutex::new(vec![]) };
     let mut per_cfg = vec![];
@@ -1199,6 +1242,22 @@ fn find_call(cwd: &str, render: &str) -> Option<Call> {
 fn replay(ctx: &Ctx, p: &std::path::Path) -> i32 {
     let j = json::parse(&std::fs::read_to_string(p).expect("read replay")).expect("parse replay");
     let case = j.get("case").expect("case");
+    if case.get("part").and_then(|x| x.as_str()) == Some("read-all-matrix") {
+        let mut found = read_all_matrix("Memfs", &Memfs::new(), "/");
+        if unsafe { libc::geteuid() } == 0 {
+            let sb = Sandbox::new("c20r.matrix");
+            found.extend(read_all_matrix("Vfs::Stdfs", &Vfs::Stdfs(Stdfs::new()), &sb.root));
+        }
+        for (sig, detail) in &found {
+            println!("  {}: {}", sig, detail);
+        }
+        if found.is_empty() {
+            println!("holds on this case");
+            return 0;
+        }
+        println!("VIOLATION property={} replay={}", ctx.prop, p.display());
+        return 1;
+    }
     let want_sig = j.get("signature").and_then(|x| x.as_str()).unwrap_or("").to_string();
     let mut st = Stats::default();
     let mut found: Vec<Finding> = vec![];
